@@ -11,7 +11,7 @@ LEVEL = "exploration"
 WARM = None
 RULE = (
     "Hypothesis-generated kernels  [0-2 unrelated] store [second store] [0-3 middle] load [0-2 unrelated]  on every "
-    "shipped model of the ISA: address shapes base / base+disp / base+index*scale(+disp); displacement pairs equal, "
+    "shipped model of the ISA (x86 stores: mov or read-modify-write addq $imm / incq / subq reg): address shapes base / base+disp / base+index*scale(+disp); displacement pairs equal, "
     "different and equal-after-bump; middle instructions from the bump vocabulary (x86 add/sub $imm, inc, dec, "
     "mov copy; AArch64 add/sub #imm in place and to a new register, mov, pre-/post-indexed accesses through the "
     "base) applied to base, index or an unrelated register; pre-/post-indexed stores and loads on AArch64; a second "
@@ -83,7 +83,12 @@ def cases(draw, isa, archs):
                  else ["fadd d1, d2, d3", "add x12, x12, #1", "fmul d4, d5, d6"])
     for _ in range(draw(st.integers(0, 2))):
         lines.append({"k": "nop", "text": draw(st.sampled_from(unrelated))})
-    lines.append(dict(store, k="store", text=("movq %rcx, " if isa == "x86" else "str x1, ") + render_addr(isa, store)))
+    # x86: the store is a plain mov or a read-modify-write instruction (addq $1 / incq / subq %rcx: flag destinations
+    # precede the memory operand in the instruction's semantic destinations)
+    st_kind = draw(st.sampled_from(["mov", "mov", "addimm", "inc", "subreg"])) if isa == "x86" else "str"
+    st_text = {"mov": "movq %rcx, ", "addimm": "addq $1, ", "inc": "incq ", "subreg": "subq %rcx, ",
+               "str": "str x1, "}[st_kind]
+    lines.append(dict(store, k="store", text=st_text + render_addr(isa, store), st_kind=st_kind))
     # optional second store directly after the first (no address register changes in between)
     sel = draw(st.integers(0, 5))
     if sel == 0 and store["mode"] == "plain":
@@ -292,7 +297,9 @@ def check_case(case):
             for l in case["lines"][sidx + 1:lidx])
         w_mem = float(iform.latency_wo_load if iform.latency_wo_load is not None else iform.latency) + stlf
         kinds = sorted({l["k"] for l in case["lines"][sidx + 1:lidx]} - {"nop"})
-        tag = "%s:%s:%s" % (isa, st_["mode"] + ("+idx" if st_["index"] else ""), "+".join(kinds) or "direct")
+        tag = "%s:%s:%s" % (isa, st_["mode"] + ("+idx" if st_["index"] else "") +
+                            (":rmw" if st_.get("st_kind") in ("addimm", "inc", "subreg") else ""),
+                            "+".join(kinds) or "direct")
         has = (sidx, lidx) in got
         if wb_store and ld["base"] == st_["base"] and not reg_edge:
             # base re-written in between: whether the register edge survives is C03's business
@@ -321,6 +328,8 @@ def check_case(case):
             cl.append("terminating-second-store")
         cl.append("expect-edge" if want else "expect-no-edge")
         cl.append("shape:" + st_["mode"] + ("+idx" if st_["index"] else ""))
+        if st_.get("st_kind") in ("addimm", "inc", "subreg"):
+            cl.append("store:read-modify-write")
         for k in kinds:
             cl.append("mid:" + k)
     return {"nontrivial": nt, "classes": sorted(set(cl)), "key": [arch, [l["text"] for l in case["lines"]]],
